@@ -84,9 +84,13 @@ def gen_extension(S, rnd):
                 e["members"] = rnd.sample(cands, rnd.choice([1, min(2, len(cands))]))
         elif k == "ENUM":
             e["values"] = [{"name": f"X{j}", "description": g.text(0.2), "deprecation": g.reason(0.2)} for j in range(rnd.choice([1, 2]))]
-        elif k == "INPUT_OBJECT" and not t["oneOf"]:
+        elif k == "INPUT_OBJECT":
             iv = g.input_value("xin", [b for b in input_types if b != t["name"]], allow_required=False)
             iv["deprecation"] = None
+            if t["oneOf"]:          # the extension of a OneOf type adds nullable fields without default; the type stays OneOf
+                while iv["type"][0] == "NN":
+                    iv["type"] = iv["type"][1]
+                iv["hasDefault"], iv["default"] = False, {"t": "null"}
             e["inputFields"] = [iv]
         else:
             continue
